@@ -146,13 +146,56 @@ def judge(run, scn, meta, res, section='state'):
     run.nontriv(('rm', esc(pat), nmatch, len(meta['ents'])))
 
 
+def decision_jobs(scn, res):
+    """the recorded trace of one trash-rm run, cut into one piece per trash directory (reads and removals below it), each with the
+    volume the scanner attaches to that directory: '/' for the home trash, the mount point for $top/.Trash/$uid, $top/.Trash-$uid"""
+    import re
+    import tracelevel
+    from common import tok_s
+    o = res['steps'][0]
+    pat = scn['steps'][0]['argv'][0] if scn['steps'][0]['argv'] else ''
+    home = (scn['env'].get('XDG_DATA_HOME') or (scn['env'].get('HOME', '') + '/.local/share')) + '/Trash'
+    per = {}
+    for rec in o['trace']:
+        if rec[0] == 'read':
+            if per.get('_last'):
+                per[per['_last']].append(rec)
+            continue
+        if rec[0] not in ('open_read', 'remove', 'rmtree') or not rec[1]:
+            continue
+        p = rec[1][0] if isinstance(rec[1][0], str) else None
+        m = re.match(r'^(.*)/(info|files)/[^/]+$', p or '', re.S)
+        if not m:
+            continue
+        td = m.group(1)
+        per.setdefault(td, []).append(rec)
+        per['_last'] = td if rec[0] == 'open_read' else None
+    per.pop('_last', None)
+    jobs = []
+    for td, recs in per.items():
+        if td == home:
+            vol = '/'
+        else:
+            mm = re.match(r'^(.*)/\.Trash(-\d+|/\d+)$', td)
+            if not mm:
+                continue
+            vol = mm.group(1) or '/'
+        jobs.append(('rmdec', tok_s(pat) + '|' + tok_s(vol), {'trace': recs}, {'scenario': scn, 'trash_dir': td, 'volume': vol}))
+    return jobs
+
+
 def run(run, thorough):
     fn_logic.glob(run, thorough)
     scns, metas = gen(run.rng, 500 if not thorough else 8000)
     out = engine.run_all(run, 'rm', scns)
     by_id = {id(s): m for s, m in zip(scns, metas)}
+    jobs = []
     for scn, res in out:
         judge(run, scn, by_id[id(scn)], res)
+        jobs += decision_jobs(scn, res)
+    engine.run_monitors(run, 'rm-decision-monitor', jobs, 'the rm decision monitor (Coq, C12) rejects the implementation trace: inside one trash '
+                        'directory a path was removed that is neither the info nor the payload of an entry whose Path, as just read, matches',
+                        'removed-without-match', silent=False)
     if out:
         run.sample({'level': 'state', 'pattern': esc(metas[0]['pat']), 'entries': [esc(e['full']) for e in metas[0]['ents']]})
 
